@@ -15,7 +15,12 @@ Spec:   CimXmlDtdRe.tla     regular-expression terms, derivative matcher and a
                             of all 41 operation methods + the case space
         WireOpsImpl.tla     TLC: every case of the case space gives a valid
                             document with agreeing headers; pinned variant and
-                            regression variants must FAIL
+                            regression variants must FAIL; the same for the
+                            object case space (tocimxml() of names, instances,
+                            classes, properties, parameter values over path
+                            shape none / keys / ns / host / ns+host x the
+                            ignore_* arguments x reference values of every
+                            path shape in keybindings / properties / parameters)
         WireOpsTrace.tla    verdicts on captured documents + impl drift
 Binding (code -> spec): documents captured from the real code
         * every case enumerated by TLC is concretised (fixed vocabulary,
@@ -25,6 +30,10 @@ Binding (code -> spec): documents captured from the real code
           argument, object names, instance paths, reference values,
           enumeration contexts) and sent through the real operation method with a
           transport adapter mounted on conn.session,
+        * every object case enumerated by TLC is concretised and written
+          with tocimxmlstr() / tocimxml().toxml() / pywbem.tocimxmlstr()
+          (+ the ignore_* arguments of the case); verdict + comparison with
+          the transcription,
         * seeded random CIM objects of every kind -> tocimxmlstr(),
         * seeded random operation calls with unusual names / namespaces,
         * arguments that XML 1.0 cannot carry (negative side),
@@ -66,6 +75,13 @@ REGRESSIONS = (
      "VALUE.NAMEDINSTANCE with INSTANCE before INSTANCENAME"),
     ("WireOpsImplLegacyNsDrop.cfg",
      "tocimxml() of object names skips empty namespace components"),
+    ("WireOpsImplLegacyWrap.cfg",
+     "CIMInstance.tocimxml() picks the wrapper element by host first, then "
+     "namespace (host without namespace: VALUE.INSTANCEWITHPATH around a "
+     "bare INSTANCENAME)"),
+    ("WireOpsImplLegacyNameHost.cfg",
+     "tocimxml() of object names tests the host first (INSTANCEPATH / "
+     "CLASSPATH with an empty LOCALNAMESPACEPATH)"),
 )
 
 
@@ -121,9 +137,11 @@ class Conc:
     is irrelevant is randomised: lexical case of names and namespaces,
     int vs float vs CIM numeric, list vs tuple, positional vs keyword."""
 
-    def __init__(self, rng, optable):
+    def __init__(self, rng, voc):
         self.r = rng
-        self.optable = optable
+        self.optable = voc["optable"]
+        self.refspec = voc["refspec"]           # WireOpsImplOps!RefSpec
+        self.mrefarrays = voc["mrefarrays"]     # WireOpsImplOps!MRefArrays
 
     def rc(self, s):
         r = self.r
@@ -164,16 +182,20 @@ class Conc:
         """namespace id of an object name (WireOpsImplOps!ONs)"""
         return "oe" if "nse" in x else "og" if "nsg" in x else "o"
 
-    def refname(self, form="in"):
-        n = CIMInstanceName(self.rc("refcls"),
-                            keybindings={self.rc("rk"): "refval"})
-        if form in ("l", "h"):
-            n.namespace = self.ns("r")
-        if form in ("le", "he"):
-            n.namespace = self.ns("re")
-        if form == "lg":
-            n.namespace = self.ns("rg")
-        if form in ("h", "he"):
+    def refvalue(self, sh):
+        """Reference value of shape sh (WireOpsImplOps!RefSpec): instance
+        name refcls.rk="refval" or class name refcls, path form f, namespace
+        id ns; deep: the key is a reference value itself."""
+        sp = self.refspec[sh]
+        if sp["k"] == "i":
+            key = self.refvalue(sp["deep"]) if sp["deep"] else "refval"
+            n = CIMInstanceName(self.rc("refcls"),
+                                keybindings={self.rc("rk"): key})
+        else:
+            n = CIMClassName(self.rc("refcls"))
+        if sp["ns"]:
+            n.namespace = self.ns(sp["ns"])
+        if sp["f"] in ("in_h", "in_ns_h", "cn_h", "cn_ns_h"):
             n.host = self.rc("hostr")
         return n
 
@@ -196,14 +218,8 @@ class Conc:
             return Real32(r.choice([1.5, -0.25, 1e10]))
         if kind == "n":
             return r.choice([7, -3, 2.5, 10 ** 20])
-        if kind == "ref":
-            return self.refname()
-        if kind == "refl":
-            return self.refname("l")
-        if kind == "refh":
-            return self.refname("h")
-        if kind in ("refle", "reflg", "refhe"):
-            return self.refname(kind[3:])
+        if kind in self.refspec and self.refspec[kind]["k"] == "i":
+            return self.refvalue(kind)
         raise vlib.MachineryError("unknown key kind %r" % kind)
 
     def instname(self, cls, form, kb, x=()):
@@ -212,7 +228,7 @@ class Conc:
         n = CIMInstanceName(self.rc(cls), keybindings=kbs)
         if form in ("in_ns", "in_ns_h"):
             n.namespace = self.ns(self.ons(x))
-        if form == "in_ns_h":
+        if form in ("in_ns_h", "in_h"):
             n.host = self.rc("hosto")
         return n
 
@@ -222,7 +238,7 @@ class Conc:
         n = CIMClassName(self.rc(cls))
         if form in ("cn_ns", "cn_ns_h"):
             n.namespace = self.ns(self.ons(x))
-        if form == "cn_ns_h":
+        if form in ("cn_ns_h", "cn_h"):
             n.host = self.rc("hosto")
         return n
 
@@ -308,23 +324,20 @@ class Conc:
             return CIMProperty(n, [self.emb_inst(), self.emb_inst()])
         if sh == "aq":
             return CIMProperty(n, ["a"], qualifiers=q1)
-        if sh == "ref":
-            return CIMProperty(n, self.refname())
         if sh == "refnull":
             return CIMProperty(n, None, type="reference")
         if sh == "refrc":
-            return CIMProperty(n, self.refname(),
+            return CIMProperty(n, self.refvalue("ref"),
                                reference_class=self.rc("refcls"))
         if sh == "ref+":
-            return CIMProperty(n, self.refname(),
+            return CIMProperty(n, self.refvalue("ref"),
                                class_origin=self.rc("ocls"), propagated=True)
-        if sh == "refc":
-            return CIMProperty(n, CIMClassName(self.rc("refcls")),
-                               type="reference")
         if sh == "refq":
-            return CIMProperty(n, self.refname(), qualifiers=q1)
-        if sh in ("refle", "reflg"):
-            return CIMProperty(n, self.refname(sh[3:]))
+            return CIMProperty(n, self.refvalue("ref"), qualifiers=q1)
+        if sh in self.refspec:
+            if self.refspec[sh]["k"] == "i" and r.random() < 0.5:
+                return CIMProperty(n, self.refvalue(sh))
+            return CIMProperty(n, self.refvalue(sh), type="reference")
         raise vlib.MachineryError("unknown property shape %r" % sh)
 
     QSHAPES = ("q", "qb", "qu", "qa", "qan", "qnull", "qfl")
@@ -384,10 +397,52 @@ class Conc:
             methods.append(self.method("m1", a["kb"]))
         if "m2" in a["x"]:
             methods.append(self.method("m2", ["m"]))
+        path = None
+        if a["f"] in ("cn", "cn_ns", "cn_h", "cn_ns_h"):     # object cases
+            path = self.classname("ccls", a["f"], a["x"])
         return CIMClass(self.rc("ccls"), properties=self.props(a["pr"]),
                         methods=methods, qualifiers=self.objquals(a["x"]),
                         superclass=self.rc("scls") if "super" in a["x"]
-                        else None)
+                        else None, path=path)
+
+    def objcase(self, c):
+        """Object case (WireOpsImplOps!ObjCases) -> (kind name, callable
+        returning the XML string).  Irrelevant and randomised: indentation,
+        tocimxmlstr() vs tocimxml().toxml()."""
+        r = self.r
+        kind = c["kind"]
+        a = {"f": c["f"], "kb": c["kb"], "pr": c["pr"], "x": c["x"]}
+        kw = {k: True for k in c["ign"]}
+        if kind in ("iname", "cname"):
+            for k in ("ignore_host", "ignore_namespace"):
+                if k not in kw and r.random() < 0.5:
+                    kw[k] = False
+        if kind == "inst" and not kw and r.random() < 0.5:
+            kw["ignore_path"] = False
+        if kind == "iname":
+            o = self.instname("icls", c["f"], c["kb"], c["x"])
+        elif kind == "cname":
+            o = self.classname("tcls", c["f"], c["x"])
+        elif kind == "inst":
+            o = self.instance(a)
+        elif kind == "class":
+            o = self.klass(a)
+        elif kind == "prop":
+            o = self.prop("p1", c["pr"][0])
+        elif kind == "param":
+            v, ty, arr, eo = self.mvalue(c["pr"][0], "cp")
+            o = CIMParameter(self.rc("mp1"), ty, value=v, is_array=arr,
+                             embedded_object=eo)
+            kw["as_value"] = True
+        else:
+            raise vlib.MachineryError("unknown object kind %r" % kind)
+        ind = r.choice([None, None, None, 2, "\t", 0])
+        name = type(o).__name__
+        if "fn" in c["x"]:
+            return name, lambda: pywbem.tocimxmlstr(o, indent=ind)
+        if ind is None and r.random() < 0.5:
+            return name, lambda: o.tocimxml(**kw).toxml()
+        return name, lambda: o.tocimxmlstr(indent=ind, **kw)
 
     def qualdecl(self, a):
         x = a["x"]
@@ -446,17 +501,11 @@ class Conc:
             return Real64(1.5), "real64", False, None
         if sh == "c16":
             return Char16("c"), "char16", False, None
-        if sh == "refi":
-            return self.refname(), "reference", False, None
-        if sh == "refl":
-            return self.refname("l"), "reference", False, None
-        if sh == "refc":
-            return CIMClassName(self.rc("refcls")), "reference", False, None
-        if sh in ("refle", "reflg"):
-            return self.refname(sh[3:]), "reference", False, None
-        if sh == "refcle":
-            return CIMClassName(self.rc("refcls"), namespace=self.ns("re")), \
-                "reference", False, None
+        if sh in self.refspec:
+            return self.refvalue(sh), "reference", False, None
+        if sh in self.mrefarrays:
+            return [self.refvalue(x) for x in self.mrefarrays[sh]], \
+                "reference", True, None
         if sh == "ei":
             return self.emb_inst(), "string", False, "instance"
         if sh == "eo":
@@ -469,8 +518,6 @@ class Conc:
             return [Uint8(1)], "uint8", True, None
         if sh == "aempty":
             return [], "string", True, None
-        if sh == "aref":
-            return [self.refname(), self.refname()], "reference", True, None
         if sh == "aei":
             return [self.emb_inst()], "string", True, "instance"
         raise vlib.MachineryError("unknown method parameter shape %r" % sh)
@@ -499,7 +546,7 @@ class Conc:
         if k == "in":
             return self.instname(p["v"], f, a["kb"], a["x"])
         if k == "on":
-            if f in ("in", "in_ns", "in_ns_h"):
+            if f in ("in", "in_ns", "in_h", "in_ns_h"):
                 return self.instname(p["v"], f, a["kb"], a["x"])
             return self.classname(p["v"], f, a["x"])
         if k in ("inst", "minst", "xinst"):
@@ -737,6 +784,8 @@ class Gen:
         return self.r.choice(["h", "h.example.com:5989", "[::1]:5988",
                               "10.1.2.3", "\xe4.example"])
 
+    # path shapes of generated names (WireOpsImplOps!PathShapes):
+    # 0 keys, 1 ns, 2 ns + host, 3 host without namespace
     def instname(self, depth=0, path=None):
         r = self.r
         kbs = []
@@ -750,20 +799,20 @@ class Gen:
                 v = self.scalar(r.choice(self.TYPES))
             kbs.append((self.name(), v))
         n = CIMInstanceName(self.name(), keybindings=kbs)
-        p = r.randrange(3) if path is None else path
-        if p >= 1:
+        p = r.randrange(4) if path is None else path
+        if p in (1, 2):
             n.namespace = self.ns()
-        if p == 2:
+        if p >= 2:
             n.host = self.host()
         return n
 
     def classname(self, path=None):
         r = self.r
         n = CIMClassName(self.name())
-        p = r.randrange(3) if path is None else path
-        if p >= 1:
+        p = r.randrange(4) if path is None else path
+        if p in (1, 2):
             n.namespace = self.ns()
-        if p == 2:
+        if p >= 2:
             n.host = self.host()
         return n
 
@@ -828,7 +877,7 @@ class Gen:
 
     def instance(self, depth=0, path=None):
         r = self.r
-        p = r.randrange(4) if path is None else path
+        p = r.randrange(5) if path is None else path
         return CIMInstance(self.name(), properties=self.props(depth),
                            qualifiers=self.qualifiers(),
                            path=None if p == 0 else self.instname(
@@ -1036,27 +1085,29 @@ class Gen:
                 v = r.choice([cn, CIMClassName(cn),
                               CIMClassName(cn, namespace=tname["ns"]),
                               CIMClassName(cn, host=self.host(),
-                                           namespace=tname["ns"])])
+                                           namespace=tname["ns"]),
+                              CIMClassName(cn, host=self.host())])
                 if not p["r"] and r.random() < 0.4:
                     v = None
             elif k in ("in", "on"):
-                form = r.randrange(5 if k == "on" else 3)
-                if form >= 3:
+                form = r.randrange(6 if k == "on" else 4)
+                if form >= 4:
                     v = r.choice([tname["cls"], CIMClassName(
-                        tname["cls"], namespace=tname["ns"])])
+                        tname["cls"], namespace=tname["ns"]),
+                        CIMClassName(tname["cls"], host=self.host())])
                 else:
                     v = self.instname(path=0)
                     v.classname = tname["cls"]
                     v.keybindings = [(kn, self.scalar(r.choice(self.TYPES)))
                                      for kn in tname["keys"]]
-                    if form >= 1:
+                    if form in (1, 2):
                         v.namespace = tname["ns"]
-                    if form == 2:
+                    if form >= 2:
                         v.host = self.host()
             elif k in ("inst", "xinst"):
                 v = self.instance()
             elif k == "minst":
-                v = self.instance(path=1 + r.randrange(3))
+                v = self.instance(path=1 + r.randrange(4))
             elif k == "cls":
                 v = self.klass()
             elif k == "qd":
@@ -1439,8 +1490,9 @@ def model_checks(ctx):
     r = ctx.tlc("WireOpsImpl", "WireOpsImpl.cfg",
                 label="request assembly (repaired design) valid for all "
                       "cases, K=2")
-    # SpecPar: start state + one state per operation + the cases
-    mc["impl_cases"] = r.distinct - 42
+    # SpecPar: start state + one state per operation + one for the object
+    # case space + the cases
+    mc["impl_cases"] = r.distinct - 43
     r = ctx.tlc("WireOpsImpl", "WireOpsImplPinned.cfg", must_pass=False,
                 count=False, extra=["-continue"],
                 label="request assembly as in the pinned tree, K=1")
@@ -1466,15 +1518,26 @@ def model_checks(ctx):
     ctx.extra["model_check"] = mc
 
 
+def vocabulary(out):
+    """The tables the spec prints for the concretisation: operation table,
+    reference shapes, reference arrays."""
+    optable = parse_json_prints(out, "OPTABLE")
+    refspec = parse_json_prints(out, "REFSPEC")
+    mrefarrays = parse_json_prints(out, "MREFARRAYS")
+    if len(optable) != 1 or len(refspec) != 1 or len(mrefarrays) != 1:
+        raise vlib.MachineryError("vocabulary not printed by TLC\n"
+                                  + out[-2000:])
+    return {"optable": optable[0], "refspec": refspec[0],
+            "mrefarrays": mrefarrays[0]}
+
+
 def enumerate_cases(ctx):
     cfg = "WireOpsImplGenBig.cfg" if ctx.tier == "thorough" \
         else "WireOpsImplGen.cfg"
     r = ctx.tlc("WireOpsImpl", cfg, workers=1, count=False,
                 label="case enumeration (WireOps_Gen)")
     cases = parse_json_prints(r.out, "CASE")
-    optable = parse_json_prints(r.out, "OPTABLE")
-    if not cases or len(optable) != 1:
-        raise vlib.MachineryError("no cases printed by TLC\n" + r.out[-2000:])
+    voc = vocabulary(r.out)
     seen = set()
     uniq = []
     for c in cases:
@@ -1485,7 +1548,11 @@ def enumerate_cases(ctx):
     if len(uniq) != r.distinct:
         raise vlib.MachineryError(
             "TLC reports %d cases but printed %d" % (r.distinct, len(uniq)))
-    return uniq, optable[0]
+    reqcases = [c for c in uniq if c["op"] != "#obj"]
+    objcases = [c for c in uniq if c["op"] == "#obj"]
+    if not reqcases or not objcases:
+        raise vlib.MachineryError("no cases printed by TLC\n" + r.out[-2000:])
+    return reqcases, objcases, voc
 
 
 def check_signatures(ctx, optable):
@@ -1526,9 +1593,10 @@ def doc_rng(seed, driver, i):
     return random.Random("%d:%s:%d" % (seed, driver, i))
 
 
-def build_doc(table, optable, seed, recipe):
+def build_doc(table, voc, seed, recipe):
     """Rebuild one document from its recipe (also used by replay).
     -> (event, raw document or None, description)"""
+    optable = voc["optable"]
     d = recipe["driver"]
     rng = doc_rng(seed, d, recipe.get("i", 0))
     cdata = bool(recipe.get("cdata"))
@@ -1536,11 +1604,28 @@ def build_doc(table, optable, seed, recipe):
     _cim_xml._CDATA_ESCAPING = cdata
     try:
         if d == "case":
-            conc = Conc(rng, optable)
+            conc = Conc(rng, voc)
             op, pos, kw, ckw = conc.call(recipe["case"])
             ev, raw = request_event(table, op, pos, kw, ckw,
                                     shape=recipe["case"])
             return ev, raw, "%s %r %r" % (op, pos, kw)
+        if d == "objcase":
+            c = recipe["case"]
+            conc = Conc(rng, voc)
+            kind = "construction"
+            try:
+                kind, fn = conc.objcase(c)
+                s = fn()
+            except vlib.MachineryError:
+                raise
+            except Exception as exc:        # noqa: refused locally
+                return make_event(table, "obj", kind, None, shape=c,
+                                  exc=type(exc).__name__), None, \
+                    "%s %r" % (kind, c)
+            return make_event(table, "obj", kind, s, shape=c), s, \
+                "%s %s path=%s ign=%s kb=%s pr=%s x=%s" % (
+                    kind, c["kind"], c["f"], c["ign"], c["kb"], c["pr"],
+                    c["x"])
         if d == "object":
             g = Gen(rng)
             kind = "construction"
@@ -1622,7 +1707,7 @@ def build_doc(table, optable, seed, recipe):
     raise vlib.MachineryError("unknown driver %r" % d)
 
 
-def plan(ctx, cases, optable):
+def plan(ctx, cases, objcases, optable):
     """The list of recipes of this run."""
     rng = ctx.rng
     thorough = ctx.tier == "thorough"
@@ -1633,6 +1718,10 @@ def plan(ctx, cases, optable):
         if thorough and rng.random() < 0.15:      # a second concretisation
             recipes.append({"driver": "case", "i": i + 10 ** 6, "case": c,
                             "cdata": rng.random() < 0.1})
+    for i, c in enumerate(objcases):
+        for k in range(3 if thorough else 1):
+            recipes.append({"driver": "objcase", "i": i + k * 10 ** 6,
+                            "case": c, "cdata": rng.random() < 0.1})
     n_obj = 6000 if thorough else 700
     for i in range(n_obj):
         recipes.append({"driver": "object", "i": i,
@@ -1696,15 +1785,16 @@ def run(ctx):
     table, lx = check_table(ctx)
     header_emulation_check(ctx)
     model_checks(ctx)
-    cases, optable = enumerate_cases(ctx)
+    cases, objcases, voc = enumerate_cases(ctx)
+    optable = voc["optable"]
     check_signatures(ctx, optable)
     t_mc = time.time() - t0
 
-    recipes = plan(ctx, cases, optable)
+    recipes = plan(ctx, cases, objcases, optable)
     events, raws, descs = [], [], []
     t1 = time.time()
     for rc in recipes:
-        ev, raw, desc = build_doc(table, optable, ctx.seed, rc)
+        ev, raw, desc = build_doc(table, voc, ctx.seed, rc)
         events.append(ev)
         raws.append(raw)
         descs.append(desc)
@@ -1813,6 +1903,7 @@ def run(ctx):
                           and ev["emitted"]})
     ctx.extra["operations_emitting"] = len(ops_emitted)
     ctx.extra["cases_from_tlc"] = len(cases)
+    ctx.extra["object_cases_from_tlc"] = len(objcases)
     ctx.extra["timing_s"] = {"model_checks": round(t_mc, 1),
                              "capture": round(t_cap, 1),
                              "tlc_validation": round(t_val, 1)}
@@ -1854,8 +1945,8 @@ def replay(rep):
     ctx = vlib.Ctx(rep["property"] + "_replay", "quick", rep.get("seed", 0))
     table = dtdread.read_dtd(dtd_path())
     r = ctx.tlc("WireOpsImpl", "WireOpsImplGen.cfg", workers=1, count=False)
-    optable = parse_json_prints(r.out, "OPTABLE")[0]
-    ev, raw, desc = build_doc(table, optable, rep.get("seed", 0),
+    voc = vocabulary(r.out)
+    ev, raw, desc = build_doc(table, voc, rep.get("seed", 0),
                               case["recipe"])
     print("replaying %s" % desc[:400])
     if isinstance(raw, tuple):
